@@ -320,8 +320,31 @@ class RandomQueries:
                 if r.random() < 0.8 else q['where']
             return q
         if family == 'nested':
-            return self.nested(r.choice([1, 1, 2]))
+            q = self.nested(r.choice([1, 1, 2])) if r.random() < 0.6 else self.query('plain')
+            k = r.random()
+            if k < 0.45:
+                q['where'] = self.insub() if r.random() < 0.7 else {'k': 'and', 'args': [self.insub(), self.where_atom()]}
+                if selectq.has_sub(q):
+                    q['where'] = {'k': 'none'}          # the outer names differ: keep IN conditions on base-table statements
+            elif k < 0.75 and not selectq.has_sub(q) and not q.get('star'):
+                q['targets'] = q['targets'] + [{'e': self.insub(), 'as': 'm'}]
+            return q
         raise ValueError(family)
+
+    def insub(self):
+        """x [NOT] IN (SELECT c FROM #g [WHERE ..] [ORDER / LIMIT]) -- candidates; may be ill-typed or multi-column on purpose"""
+        r = self.rng
+        col = self.col
+        left = r.choice(['k', 'v', 's', 'w', 'k', 's'])
+        right = left if r.random() < 0.7 else r.choice(['k', 'v', 's', 'w'])
+        inner = {'targets': [{'e': col(right) if r.random() < 0.8 else {'k': 'bin', 'op': 'add', 'a': col('k'), 'b': self.const_int(1)}, 'as': 'c'}],
+                 'where': r.choice([{'k': 'none'}, {'k': 'bin', 'op': 'gt', 'a': col('v'), 'b': self.const_int(r.choice([0, 2, 100]))},
+                                    {'k': 'un', 'op': 'isnotnull', 'a': col(right)}, {'k': 'un', 'op': 'isnull', 'a': col('k')}]),
+                 'group': [], 'having': {'k': 'none'}, 'order': [], 'pivot': [], 'distinct': r.random() < 0.2, 'limit': r.choice([-1, -1, -1, 0, 2]),
+                 'sub': {'k': 'none'}, 'star': False}
+        if r.random() < 0.06:
+            inner['targets'].append({'e': col('p'), 'as': 'd'})          # two columns: must be rejected
+        return {'k': 'insub', 'neg': r.random() < 0.4, 'a': col(left), 'q': inner}
 
     def nested(self, depth):
         """outer query over FROM (inner): inner outputs are all named (aliases / bare columns), the outer one addresses them by
